@@ -26,3 +26,15 @@ Proof.
   exists [(VStr "a", 4242)], 2, 1, []. split; [lia|]. split; [lia|]. vm_compute. discriminate.
 Qed.
 Print Assumptions C18_namedtuple_pickle_refuted.
+
+(* C18-batch-reflected-pickle: the bundle of a reflected operator (3 - batch) holds a local lambda; on a process
+   pool it cannot be pickled, every task fails where the sequential Batch succeeds. *)
+Theorem C18_batch_reflected_pickle_refuted :
+  exists (items : list (val * Z)) (k c : Z) (pi : list nat),
+    1 <= k /\ 1 <= c /\
+    M_batch_pool (fun b => pool_f_nt Procs [] (snd b)) Procs k c pi items
+      <> S_batch_apply (fun b => pool_f [] (snd b)) items.
+Proof.
+  exists [(VStr "a", 4242)], 2, 1, []. split; [lia|]. split; [lia|]. vm_compute. discriminate.
+Qed.
+Print Assumptions C18_batch_reflected_pickle_refuted.
